@@ -1,5 +1,6 @@
 import Genshi.Wire
 import Genshi.Model.Lru
+import Genshi.Model.Loader
 namespace Driver.C15
 open Genshi Genshi.Sexp Genshi.Lru
 
@@ -54,7 +55,83 @@ def lruRun (cap nkeys : Nat) (ops : List (Op Nat Nat)) : Sexp :=
   | none => .list [.atom "crash", abs]
   | some (c, outs) => .list [.list [.list (outs.map outS), dumpS c nkeys], abs]
 
+/-! ### loader histories: `C15 hist <cap> <autoReload> <hasCallback> ( path… ) ( ops… )` -/
+section
+open Genshi.Loader
+
+def entry? : Sexp → Option Entry
+  | .list [.atom "D", d, insub] => do let d ← d.toNat?; let b ← insub.toBool?; pure (.dir d b)
+  | .list [.atom "F", d, c] => do let d ← d.toNat?; let c ← c.toBool?; pure (.fn d c)
+  | _ => none
+
+def optNat? : Sexp → Option (Option Nat)
+  | .atom "N" => some none
+  | x => do let n ← x.toNat?; pure (some n)
+
+def rel? : Sexp → Option Rel
+  | .atom "N" => some .none
+  | .list [.atom "R", b] => do let b ← b.toBool?; pure (.rel b)
+  | .list [.atom "A", d, b] => do let d ← d.toNat?; let b ← b.toBool?; pure (.abs d b)
+  | _ => none
+
+def fault? : Sexp → Option Fault
+  | .atom "N" => some .none
+  | .atom "io" => some .io
+  | .atom "other" => some .other
+  | _ => none
+
+def loc? (d sub base : Sexp) : Option Loc := do
+  let d ← d.toNat?; let b ← sub.toBool?; let n ← base.toNat?; pure ⟨d, b, n⟩
+
+def hop? : Sexp → Option HOp
+  | .list [.atom "W", d, sub, base, c, bad] => do
+      let l ← loc? d sub base; let c ← c.toNat?; let b ← bad.toBool?; pure (.write l c b)
+  | .list [.atom "T", d, sub, base] => do let l ← loc? d sub base; pure (.touch l)
+  | .list [.atom "X", d, sub, base] => do let l ← loc? d sub base; pure (.delete l)
+  | .list [.atom "L", base, sub, absd, rel, cls, enc, cb, fault] => do
+      let base ← base.toNat?; let sub ← sub.toBool?; let absd ← optNat? absd; let rel ← rel? rel
+      let cls ← cls.toNat?; let enc ← enc.toNat?; let cb ← cb.toBool?; let fault ← fault? fault
+      pure (.load ⟨base, sub, absd, rel, cls, enc, cb, fault⟩)
+  | _ => none
+
+def errS : Err → Sexp
+  | .notFound => .atom "TemplateNotFound"
+  | .syntaxError => .atom "TemplateSyntaxError"
+  | .callback => .atom "CallbackError"
+  | .loadFunc => .atom "LoadFuncError"
+  | .noSearchPath => .atom "TemplateError"
+
+def tmplS (t : Tmpl) : Sexp :=
+  .list [ofNat t.obj, ofNat t.loc.dir, ofBool t.loc.sub, ofNat t.loc.base, ofNat t.content,
+         ofNat t.cls, ofNat t.enc, ofBool t.absName]
+
+def resS : Res → Sexp
+  | .ok t => .list [.atom "ok", tmplS t]
+  | .err e => .list [.atom "err", errS e]
+
+def keyS (k : Key) : Sexp := .list [optS k.absd, ofBool k.sub, ofNat k.base]
+
+def lstateS (s : LState) : Sexp :=
+  .list [.list (s.cache.items.map fun (k, t) => .list [keyS k, ofNat t.obj]),
+         ofNat s.cbLog.length, ofNat s.parsed.length, ofNat s.lock]
+
+def histRun (cfg : Cfg) : World → List HOp → List Sexp
+  | _, [] => []
+  | w, op :: ops =>
+    let (w', o) := hstep cfg w op
+    let here : Sexp := match op, o with
+      | .load _, some res => .list [resS res, lstateS w'.ls]
+      | .load _, none => .atom "unmodelled"
+      | _, _ => .atom "U"
+    here :: histRun cfg w' ops
+end
+
 def handle : List Sexp → Option Sexp
+  | [.atom "hist", cap, ar, cb, .list path, .list ops] => do
+      let cap ← cap.toNat?; let ar ← ar.toBool?; let cb ← cb.toBool?
+      let path ← path.mapM entry?
+      let ops ← ops.mapM hop?
+      pure (.list (histRun ⟨path, ar, cap, cb⟩ (Genshi.Loader.World.init cap) ops))
   | [.atom "lru", cap, nkeys, .list ops] => do
       let cap ← cap.toNat?; let nkeys ← nkeys.toNat?
       let ops ← ops.mapM op?
